@@ -267,7 +267,7 @@ def multiset_dict(d):
     return {k: multiset(d.get(k, [])) for k in ("structs", "enums", "impls", "services", "devices")}
 
 
-FAULTS = ["syntax", "eof", "version", "unknown-type", "literal", "missing-nested"]
+FAULTS = ["syntax", "eof", "version", "unknown-type", "literal", "missing-nested", "missing-decoy"]
 
 
 def inject(run, i, tree, root, fault):
@@ -281,7 +281,12 @@ def inject(run, i, tree, root, fault):
         # source of a diagnostic is ambiguous - fault injection is limited to unambiguous trees
         return
     victim = r.choice(mods)
+    if fault == "missing-decoy":
+        deep = [f for f in mods if "/" in f.relpath]
+        if deep and r.random() < 0.8:
+            victim = r.choice(deep)
     files = write_tree(root, tree)
+    restore_cwd = None
     p = os.path.join(root, victim.relpath)
     txt = files[victim.relpath]
     expect_name = os.path.basename(victim.relpath)
@@ -301,6 +306,32 @@ def inject(run, i, tree, root, fault):
     elif fault == "missing-nested":
         bad = txt + "\nmod nowhere%d.gone%d;\n" % (i, i)
         expect_name = "gone%d.fcp" % i
+    elif fault == "missing-decoy":
+        # the module is missing where the importing file's directory says it should be, while files of the
+        # same relative path / name exist in other places a lookup could fall back to (the root schema's
+        # directory, the importer's parent directory, the working directory, the bare file name next to the
+        # importer): imports are resolved relative to the importing file, so this is still a missing module
+        bad = txt + "\nmod nowhere%d.gone%d;\n" % (i, i)
+        expect_name = "gone%d.fcp" % i
+        right = os.path.normpath(os.path.join(os.path.dirname(p), "nowhere%d" % i, "gone%d.fcp" % i))
+        decoy = 'version: "3"\nstruct Decoy%d { a @0: u8, }\n' % i
+        cwd_dir = os.path.join(root, "_cwd")
+        spots = [os.path.join(root, "nowhere%d" % i, "gone%d.fcp" % i),
+                 os.path.join(os.path.dirname(os.path.dirname(p)), "nowhere%d" % i, "gone%d.fcp" % i),
+                 os.path.join(cwd_dir, "nowhere%d" % i, "gone%d.fcp" % i),
+                 os.path.join(os.path.dirname(p), "gone%d.fcp" % i),
+                 os.path.join(root, "gone%d.fcp" % i)]
+        os.makedirs(cwd_dir, exist_ok=True)
+        for sp in spots:
+            sp = os.path.normpath(sp)
+            if sp == right or not sp.startswith(root):
+                continue
+            os.makedirs(os.path.dirname(sp), exist_ok=True)
+            open(sp, "w").write(decoy)
+            files["<decoy> " + os.path.relpath(sp, root)] = decoy
+            run.count("decoy_files_written")
+        restore_cwd = os.getcwd()
+        os.chdir(cwd_dir)
     open(p, "w").write(bad)
     files[victim.relpath] = bad
     case = {"files": files, "fault": fault, "module": victim.relpath}
@@ -309,6 +340,9 @@ def inject(run, i, tree, root, fault):
     except BaseException as e:
         run.violation("%s fault inside module %s raised %s: %s" % (fault, victim.relpath, type(e).__name__, str(e).replace("\n", " ")[:200]), case)
         return
+    finally:
+        if restore_cwd is not None:
+            os.chdir(restore_cwd)
     run.count("faults_injected")
     if fault in ("syntax", "eof"):
         # a random insertion / cut can leave a well-formed (if shorter) module - e.g. a cut at a
@@ -400,7 +434,7 @@ def run(run):
 
 
 def conclude(run):
-    run.require("wide_splits_of_9_to_16_modules", "bom_pairs", "splits_parsed", "splits_equal", "faults_injected", "faults_reported_well", "splits_with_crlf_files", "schemas_with_duplicate_declarations",
+    run.require("wide_splits_of_9_to_16_modules", "bom_pairs", "splits_parsed", "splits_equal", "faults_injected", "faults_reported_well", "decoy_files_written", "splits_with_crlf_files", "schemas_with_duplicate_declarations",
                 "moved/struct", "moved/enum", "moved/impl", "moved/service", "moved/device")
 
 
@@ -425,14 +459,19 @@ def replay(run, case):
                 run.violation("saved with a byte order mark: single file %s, split %s" % tuple(verdicts), case)
             return
         for rel, body in case["files"].items():
-            p = os.path.join(tmp, rel)
+            p = os.path.join(tmp, rel[len("<decoy> "):] if rel.startswith("<decoy> ") else rel)
             os.makedirs(os.path.dirname(p), exist_ok=True)
             open(p, "w").write(body)
+        back = os.getcwd()
+        if os.path.isdir(os.path.join(tmp, "_cwd")):
+            os.chdir(os.path.join(tmp, "_cwd"))
         try:
             res, lg = PC.parse_file(os.path.join(tmp, "main.fcp"))
         except BaseException as e:
             run.violation("raised %s: %s" % (type(e).__name__, e), case)
             return
+        finally:
+            os.chdir(back)
         if "fault" in case:
             if res.is_ok():
                 run.violation("fault accepted", case)
